@@ -119,6 +119,7 @@ type Exec struct {
 	allocs    []int64
 	pathNotes []string
 	wallMs        map[int]*Term
+	provided      map[string]Value
 	manualClock   *Term
 	timerObjs     map[Ptr]*timerObj
 	opaqueN       int
@@ -905,6 +906,7 @@ func (x *Exec) resetPath() {
 	x.pathNotes = nil
 	x.aborting = false
 	x.wallMs = map[int]*Term{}
+	x.provided = map[string]Value{}
 	x.manualClock = nil
 	x.timerObjs = map[Ptr]*timerObj{}
 	x.opaqueN = 0
